@@ -1,1 +1,14 @@
+//! Independent reading of the wowm language (no dependency on the crates of /repo).
+pub mod ast;
+pub mod calendar;
+pub mod frame;
+pub mod parser;
+pub mod resolve;
+pub mod walk;
 
+use std::path::Path;
+
+/// Loads the corpus of `/repo` (`wow_message_parser/wowm/**`).
+pub fn load_corpus(repo: &Path) -> Result<resolve::Universe, String> {
+    resolve::Universe::load_dir(&repo.join("wow_message_parser/wowm"), repo)
+}
